@@ -47,6 +47,20 @@ pub fn run(args: &[String]) {
             m.commit().unwrap();
             println!("after commit: queue len {} first {:?}", m.enrichment_queue_len(), m.next_enrichment_task());
         }
+        Some("presearch") => {
+            let scratch = crate::common::Scratch::new("exp");
+            let dir = scratch.dir();
+            let path = dir.join("m.mv2");
+            let mut m = memvid_core::Memvid::create(&path).unwrap();
+            println!("stats lex_enabled {:?}", m.stats().map(|s| s.lex_enabled));
+            let o = memvid_core::PutOptions::builder().uri("mv2://a").timestamp(10).instant_index(true).extraction_budget_ms(0).build();
+            m.put_bytes_with_options(b"hello zanzibarq world", o).unwrap();
+            println!("stats lex_enabled {:?}", m.stats().map(|s| s.lex_enabled));
+            let req = memvid_core::SearchRequest { query: "zanzibarq".into(), top_k: 5, snippet_chars: 80, uri: None, scope: None, cursor: None, as_of_frame: None, as_of_ts: None, no_sketch: false, acl_context: None, acl_enforcement_mode: Default::default() };
+            println!("{:?}", m.search(req.clone()).map(|r| r.hits.iter().map(|h| h.frame_id).collect::<Vec<_>>()));
+            m.commit().unwrap();
+            println!("{:?}", m.search(req).map(|r| r.hits.iter().map(|h| h.frame_id).collect::<Vec<_>>()));
+        }
         _ => println!("unknown experiment"),
     }
 }
